@@ -31,6 +31,11 @@ Theorem C12d_tie_reinit_per_sink : QuillGen.SrcFacts.be_log_to_write_reinit_per_
 Proof. exact src_log_to_write_reinit_per_sink. Qed.
 Print Assumptions C12d_tie_reinit_per_sink.
 
+(* T-src: loggers share a formatter only when every member of their pattern options is equal *)
+Theorem C12d_tie_formatter_sharing : QuillGen.SrcFacts.pfo_eq_compares_every_member = true.
+Proof. exact src_pfo_eq_compares_every_member. Qed.
+Print Assumptions C12d_tie_formatter_sharing.
+
 Theorem C12d_tie_skeletons :
   QuillGen.SrcFacts.sk_c12d_write_log_statement = exp_c12d_write_log_statement /\
   QuillGen.SrcFacts.sk_c12d_process_multi_line_message = exp_c12d_process_multi_line_message /\
